@@ -339,6 +339,24 @@ def build():
     add_nested("ListS", [2], [ls("", "a"), ls("b")], scope="out", note="an empty String as list item")
     add_nested("ListS", [2], [ls(""), ls("b")], scope="out", note="a list holding one empty String prints like the empty list")
 
+    # ---- part-2 robustness streams (FRAMEWORK.md 8, 10): appended, ids above do not move.  Ranks 5..8; every letter, digit and punctuation
+    # character of printable ASCII as a char element and as a one-character String (the quote and the backslash are escaped by Debug: out)
+    for s in ([1, 2, 1, 2, 1], [2, 1, 1, 1, 1, 2], [1, 1, 2, 1, 1, 1, 1, 2], [2, 2, 2, 2, 2], [1, 1, 1, 1, 1, 1, 1, 1]): once("i32", s)
+    once("String", [1, 2, 1, 2, 1, 2]); once("T2", [2, 1, 2, 1, 2]); once("char", [1, 1, 1, 1, 1, 1, 1, 3]); once("List", [1, 2, 1, 1, 2]); once("f64", [2, 1, 1, 2, 1, 1, 2])
+    once("T3", [1, 1, 2, 1, 2]); once("bool", [2, 1, 1, 1, 1, 1, 1, 2])
+    import string
+    upper, lower, digits = string.ascii_uppercase, string.ascii_lowercase, string.digits
+    punct = "".join(c for c in string.punctuation if c not in "'\\") + " "
+    add_nested("char", [26], [ch(c) for c in upper], note="every upper-case letter")
+    add_nested("char", [2, 13], [ch(c) for c in lower], note="every lower-case letter")
+    add_nested("char", [10], [ch(c) for c in digits], note="every digit")
+    add_nested("char", [len(punct)], [ch(c) for c in punct], note="every punctuation character of printable ASCII except the quote and the backslash")
+    add_nested("String", [2, 26], [st(c) for c in upper + lower], note="every letter as a one-character String")
+    add_nested("String", [10], [st(c + c) for c in digits], note="digits")
+    add_nested("String", [len(punct) - 1], [st("a" + c + "b") for c in punct if c != '"'], scope="out", note="every punctuation character inside a String")
+    add_nested("T2s", [13], [t2(upper[2 * i], lower[2 * i + 1] + "z") for i in range(13)], note="letters as tuple components")
+    add_nested("ListS", [13], [ls(lower[2 * i], upper[2 * i + 1]) for i in range(13)], note="letters as list items")
+
 
 # ---- macros that stand for functions: (macro expression, function expression, element type)
 CTORS = []
